@@ -2,8 +2,8 @@ package engine
 
 import (
 	"fmt"
-	"os"
 	"go/types"
+	"os"
 	"strings"
 
 	"golang.org/x/tools/go/ssa"
